@@ -323,6 +323,8 @@ type Result struct {
 	HoldsForced   int
 	Accepts       int
 	BuildErr      string
+	Points        [][]string // E2: schedule points seen per task (task 0 = accept loop, then connections, then closers)
+	NConns        int
 }
 
 //go:norace
@@ -449,6 +451,10 @@ func RunScheduled(c *Case) *Result {
 	for _, cs := range rt.Conns {
 		rt.L.offer <- cs.SimConn
 	}
+	// Serve must be up (parked in its first Accept) before any Close caller
+	// exists: the properties quantify over Close racing with connections, not
+	// over Close racing with the start of Serve itself.
+	synctest.Wait()
 	for i, cl := range closers {
 		i, cl := i, cl
 		task := rt.closerTask[i]
@@ -479,6 +485,8 @@ func RunScheduled(c *Case) *Result {
 	res.Schedule = rt.K.Recorded()
 	res.Trace = rt.K.trace
 	res.Decisions = rt.K.decisions
+	res.Points = rt.K.SeenPoints()
+	res.NConns = len(rt.Conns)
 	res.LockWaits = rt.K.lockWaits
 	res.HoldsForced = rt.K.holdsForced
 	rt.setFrozen()
